@@ -151,16 +151,21 @@ def _solve_one(ob, timeout_ms, mode):
         if has_quant(list(hyps) + [goal]):
             return "unknown", 0.0, "cvc5", "quantified: not sent to cvc5"
         hs, g, side, nmono = linearize(hyps, goal)
+        raw = False
         if side is not None:
             s0 = Solver()
             s0.set("timeout", int(timeout_ms))
             s0.add(hyps)
             s0.add(Not(side))
             if s0.check() != unsat:
-                return "unknown", time.time() - t0, "cvc5", "divisor positivity not proved"
-        fs, ax = elim_toint(hs + [Not(g)])
-        s.add(fs)
-        s.add(ax)
+                raw = True          # denominators may vanish: hand cvc5 the original text (division is a total function in SMT-LIB)
+        if raw:
+            s.add(hyps)
+            s.add(Not(goal))
+        else:
+            fs, ax = elim_toint(hs + [Not(g)])
+            s.add(fs)
+            s.add(ax)
         d = tempfile.mkdtemp(prefix="vfcvc5")
         try:
             fn = os.path.join(d, "q.smt2")
@@ -292,3 +297,26 @@ def discharge(obs, timeout_s=30, jobs=None, modes=("direct", "lin", "cvc5", "ins
                 nxt.append(i)
         todo = nxt
     return obs
+
+
+def cross_confirm(obs, timeout_s=20, jobs=None):
+    """second solver (thorough tier): every obligation that z3 discharged from a quantifier-free query is given to cvc5 as well
+    (linearised text).  Records ob.meta['cvc5'] = 'unsat' | 'unknown' | 'sat'; returns (confirmed, unknown, disagreements)."""
+    jobs = jobs or int(os.environ.get("VERIF_JOBS", "16"))
+    idxs = [i for i, o in enumerate(obs) if o.status == "unsat" and o.backend in ("z3-qf", "z3-linearized") and o.hyps is not None and o.goal is not None
+            and o.meta.get("theory") != "strings" and not has_quant(list(o.hyps) + [o.goal])]
+    if not idxs:
+        return 0, 0, []
+    res = run_pool(obs, idxs, timeout_s, "cvc5", jobs)
+    ok = unk = 0
+    bad = []
+    for i in idxs:
+        st = res.get(i, ("unknown",))[0]
+        obs[i].meta["cvc5"] = st
+        if st == "unsat":
+            ok += 1
+        elif st == "sat":
+            bad.append(obs[i].id)
+        else:
+            unk += 1
+    return ok, unk, bad
